@@ -93,6 +93,11 @@ func genC19(r *Rand, tier string, ord int) *Trial {
 				rc.Threads = r.PickInt(1, 2, 4)
 			}
 			rc.Chunk = 0
+			if f.Kind != "create_error" && f.Kind != "short_write" {
+				// which error the destination reports varies with the schedule index: a command must not
+				// treat any of them (full device, closed pipe, I/O error, quota, an untyped error) as success
+				f.Errno = writeErrnos[(s+f.K)%len(writeErrnos)]
+			}
 			rc.Faults = []Fault{f}
 			t.Runs = append(t.Runs, rc)
 		}
